@@ -250,6 +250,44 @@ def check_distributions(rep: Report):
                 rep.count(2, ("dist-cond", name, wc))
 
 
+def replay_utils(rep: Report):
+    """flowjax.utils.merge_cond_shapes / check_shapes_match (the mechanism behind the constructors' shape errors) against
+    every list of up to three shapes enumerated by Utils.tla."""
+    from engine import tlc
+    from flowjax.utils import check_shapes_match, merge_cond_shapes
+    r = tlc.run("MC_Utils", "MC_Utils.cfg", workers=4, coverage=False, timeout=300)
+    if r.violated:
+        rep.machinery_failure(f"Utils.tla violates {r.violated}")
+        return
+    rep.add("states", r.distinct)
+    rep.add("transitions", r.generated)
+    seen = set()
+    for c in r.cases:
+        k = json.dumps(c["shapes"])
+        if k in seen:
+            continue
+        seen.add(k)
+        shapes = [None if s == [-1] else tuple(s) for s in c["shapes"]]
+        rep.count(1, ("utils", k))
+        try:
+            got = merge_cond_shapes(shapes)
+            verdict = "none" if got is None else "shape"
+        except Exception:  # noqa: BLE001
+            got, verdict = None, "error"
+        if verdict != c["merge"] or (verdict == "shape" and tuple(got) != tuple(c["merged"])):
+            rep.violation({"helper": "merge_cond_shapes", "shapes": c["shapes"]},
+                          f"merge_cond_shapes({shapes}) -> {verdict} {got}; documented: {c['merge']} {c['merged']}")
+        if shapes and all(s is not None for s in shapes):
+            try:
+                check_shapes_match(shapes)
+                ok = True
+            except Exception:  # noqa: BLE001
+                ok = False
+            if ok != c["allmatch"]:
+                rep.violation({"helper": "check_shapes_match", "shapes": c["shapes"]},
+                              f"check_shapes_match({shapes}) {'accepted' if ok else 'raised'}; the shapes {'match' if c['allmatch'] else 'differ'}")
+
+
 def main():
     ap = argparse.ArgumentParser()
     ap.add_argument("--replay")
@@ -277,6 +315,7 @@ def main():
     check_leaf_classes(rep)
     check_documented_constructor_errors(rep)
     check_distributions(rep)
+    replay_utils(rep)
     rep.set("traces_validated_against_impl", 0)
     rep.set("programs_replayed", {"valid": len(picked), "invalid": len(inv_b)})
     rep.set("rule", "evaluations = rejected calls attempted (method x wrong shape) + constructor verdicts; one distinct "
